@@ -262,6 +262,13 @@ func payload(m dsl.Matcher) {
 		"TODO\\((?P<who>\\w+)\\)",
 		"FIXME: (?P<what>.*)",
 	).Report("c $who$what")
+
+	m.MatchComment("NOTE\\((?P<tag>[a-z]+)\\): (?P<rest>.*)").Report("note $tag").At(m["tag"]).Suggest("<$tag>")
+
+	m.Match(` + "`" + `ml1(
+		$x,
+	)` + "`" + `, ` + "`" + `ml2($x,
+		$y)` + "`" + `).Report("ml $x")
 }
 `
 
@@ -274,6 +281,8 @@ func at(...interface{})   {}
 func self(...interface{}) {}
 func own(...interface{})  {}
 func amp(...interface{})  {}
+func ml1(...interface{})  {}
+func ml2(...interface{})  {}
 
 type S struct{ f int }
 
@@ -291,6 +300,9 @@ func t(s S, arr []S) {
 	alt1("a very long string literal, longer than sixty bytes for sure, to see the elision")
 	// TODO(alice) something
 	// FIXME: broken
+	// NOTE(abc): rest of it
+	ml1(7)
+	ml2(8, 9)
 	self()
 }`
 
@@ -338,11 +350,20 @@ func c03E2E(c *Ctx) error {
 		{"TODO(alice)", "c alice$what", lineOf(`"TODO\\((?P<who>\\w+)\\)"`), "", "TODO(alice)"},
 		{"FIXME: broken", "c $whobroken", lineOf(`"FIXME: (?P<what>.*)"`), "", "FIXME: broken"},
 		{"self()\n}", "self", lineOf(`"self($*args)"`), "self()", "self()"},
+		{"NOTE-at", "note abc", lineOf(`m.MatchComment("NOTE`), "<abc>", "abc"},
+		{"ml1(7)", "ml 7", lineOf("`ml1("), "", "ml1(7)"},
+		{"ml2(8, 9)", "ml 8", lineOf("`ml2($x,"), "", "ml2(8, 9)"},
 	}
 	find := func(key string) *hx.Report {
 		for i := range rs {
 			if rs[i].Pos >= 0 && rs[i].End <= len(src) && rs[i].Pos <= rs[i].End {
 				txt := src[rs[i].Pos:rs[i].End]
+				if key == "NOTE-at" {
+					if txt == "abc" {
+						return &rs[i]
+					}
+					continue
+				}
 				if strings.HasPrefix(key, txt) || strings.HasPrefix(txt, key) || (strings.HasPrefix(key, "at(") && strings.HasPrefix(txt, "20+")) {
 					if strings.HasPrefix(key, "alt1(1)") && txt != "alt1(1)" {
 						continue
